@@ -128,7 +128,15 @@ class Facts(object):
                             self.unattributed.append(tx)
             elif e.k == "rx":
                 self.rx.append(e)
-                d = e.d["desc"]
+                for d in e.d.get("parts") or [e.d["desc"]]:
+                    self._ack(e, d, phase, open_by_id)
+            elif e.k == "timers":
+                self.step_end[e.step] = e
+
+    def _ack(self, e, d, phase, open_by_id):
+        w = self.w
+        if True:
+            if True:
                 if d and d[0] in ("PUBACK", "PUBREC", "PUBCOMP", "SUBACK", "UNSUBACK") and phase.get(e.c) == "connected":
                     a = w.conns[e.c].a
                     rid = open_by_id.get((a, d[1]))
@@ -138,8 +146,6 @@ class Facts(object):
                                 "subscribe": ("SUBACK",), "unsubscribe": ("UNSUBACK",)}[ri.kind]
                         if d[0] in want and (d[0] != "PUBCOMP" or any(k[3] == "PUBREC" for k in ri.acks)):
                             ri.acks.append((e.i, e.step, e.t, d[0], e.c))
-            elif e.k == "timers":
-                self.step_end[e.step] = e
 
     def _fired_in_own_call(self, r):
         ei = r.fires[0][0]
